@@ -427,8 +427,8 @@ func c04r1(c *Ctx) {
 // c04CheckStopLoop: back edges of the loop after cv require err==nil and done==true; returns from
 // inside the iteration are not-done. Returns the problems found.
 func (p *Program) c04CheckStopLoop(fn *ssa.Function, cv *ssa.Call, loop *Loop) (bad []string, tails int) {
-	ts := pfLoopTailsAfter(cv, loop)
-	iter := pfIterRegion(cv, loop.Head)
+	ts := loopTailsAfter(cv, loop)
+	iter := iterRegionOf(cv, loop)
 	for _, t := range ts {
 		fs := p.FactsOnEdge(t, loop.Head)
 		if p.c04ErrOfCall(fs, cv, iter) != yesTri {
@@ -438,7 +438,18 @@ func (p *Program) c04CheckStopLoop(fn *ssa.Function, cv *ssa.Call, loop *Loop) (
 			bad = append(bad, fmt.Sprintf("back edge from block %d (%s): the call is not known to have reported done (the next element is torn down while this one is unfinished)", t.Index, p.blockPos(t)))
 		}
 	}
-	region := pfIterRegion(cv, loop.Head)
+	// bottom-tested loop: the last iteration ends over the latch's exit edge, not over a back edge;
+	// what is returned behind the loop rests on that edge in the same way
+	if rot := rotatedLoop(loop); rot != nil && iter[rot.Latch] {
+		fs := p.FactsOnEdge(rot.Latch, rot.Exit)
+		if p.c04ErrOfCall(fs, cv, iter) != yesTri {
+			bad = append(bad, fmt.Sprintf("loop exit from block %d (%s): the call's error is not known to be nil", rot.Latch.Index, p.blockPos(rot.Latch)))
+		}
+		if p.c04BoolResult(fs, cv, 0, iter) != yesTri {
+			bad = append(bad, fmt.Sprintf("loop exit from block %d (%s): the last call is not known to have reported done", rot.Latch.Index, p.blockPos(rot.Latch)))
+		}
+	}
+	region := iter
 	for _, rc := range p.pfReturnCases(fn) {
 		if !pfReturnInRegion(rc, region) {
 			continue
@@ -470,7 +481,7 @@ func c04r2(c *Ctx) {
 		}
 		doneJudged[tl.Loop.Head] = true
 		o2 := c.Ob(fn, "teardown-done-returns", nil, "done is returned only after the loop is exhausted or under the orphan-finalizer guard")
-		region := pfIterRegion(cv, tl.Loop.Head)
+		region := iterRegionOf(cv, tl.Loop)
 		var bad2 []string
 		n := 0
 		for _, rc := range p.pfReturnCases(fn) {
@@ -482,7 +493,7 @@ func c04r2(c *Ctx) {
 			if rc.Pred != nil {
 				from = rc.Pred
 			}
-			if tl.Loop.Head.Dominates(from) {
+			if behindLoop(tl.Loop, from) {
 				continue // after the loop ran to completion (every iteration passed the back-edge guard)
 			}
 			if _, orphan := p.findFactCall(rc.Facts, true, []string{pkgCtrlUtil + ".ContainsFinalizer"}, func(cc *ssa.CallCommon) bool {
@@ -546,11 +557,27 @@ func c04r3(c *Ctx) {
 			o.Unknown("no per-object teardown call inside a loop over phase.Objects found")
 			continue
 		}
-		region := pfIterRegion(cv, loop.Head)
+		region := iterRegionOf(cv, loop)
 		var bad []string
 		shapes := map[string]bool{}
+		rot := rotatedLoop(loop)
+		finalJudged := map[*ssa.Return]bool{}
 		for _, rc := range p.pfReturnCases(fn) {
 			r0 := rc.Results[0]
+			// Bottom-tested loop whose exit block returns a phi (`return allDone`): the return was split
+			// per incoming edge, i.e. into "no iteration" and "after the last iteration". Together these
+			// are the loop's final value — what the head phi is behind a top-tested loop — and are
+			// judged as that one value (once); a value arriving over a `break` edge keeps its own case.
+			if rot != nil && rc.Pred != nil && rc.Ret.Block() == rot.Exit && rotExitEdge(rot, rc.Pred) && len(rc.Ret.Results) > 0 {
+				if ph, isPhi := stripConv(rc.Ret.Results[0]).(*ssa.Phi); isPhi && ph.Block() == rot.Exit {
+					if finalJudged[rc.Ret] {
+						continue
+					}
+					finalJudged[rc.Ret] = true
+					rc = ReturnCase{Ret: rc.Ret, Results: append([]ssa.Value{ph}, rc.Results[1:]...), Facts: p.FactsAt(rot.Exit)}
+					r0 = ph
+				}
+			}
 			if p.c04ValueFalse(rc.Facts, r0) {
 				continue
 			}
@@ -563,7 +590,7 @@ func c04r3(c *Ctx) {
 			if rc.Pred != nil {
 				from = rc.Pred
 			}
-			if !loop.Head.Dominates(from) {
+			if !behindLoop(loop, from) {
 				bad = append(bad, "return at "+at+" may report done before the objects were visited")
 				continue
 			}
@@ -608,7 +635,7 @@ func c04r3(c *Ctx) {
 }
 
 // c04CounterShape: v is `counter == len(phase.Objects)` (or >=) where counter is a loop-header phi
-// starting at 0 that is incremented by one only on the done==true, err==nil path of cv.
+// (or its final value behind a bottom-tested loop, carriedAtExit) starting at 0 that is incremented by one only on the done==true, err==nil path of cv.
 func (p *Program) c04CounterShape(v ssa.Value, cv *ssa.Call, loop *Loop, phaseParam *ssa.Parameter) string {
 	b, ok := v.(*ssa.BinOp)
 	if !ok {
@@ -626,8 +653,9 @@ func (p *Program) c04CounterShape(v ssa.Value, cv *ssa.Call, loop *Loop, phasePa
 	default:
 		return "comparison operator " + b.Op.String() + " does not express counter == number of objects"
 	}
-	phi, isPhi := cnt.(*ssa.Phi)
-	if !isPhi || phi.Block() != loop.Head {
+	// the head phi, or (bottom-tested loop, `for i := range n`) the exit-block phi that is its final value
+	phi := carriedAtExit(cnt, loop)
+	if phi == nil {
 		return "the compared counter is not a variable carried by the object loop"
 	}
 	lc, isCall := n.(*ssa.Call)
@@ -642,6 +670,37 @@ func (p *Program) c04CounterShape(v ssa.Value, cv *ssa.Call, loop *Loop, phasePa
 	if !isLen {
 		return "the counter is compared with " + p.describe(n) + ", not len(phase.Objects)"
 	}
+	iter := iterRegionOf(cv, loop)
+	// update: the value e the counter takes over a back edge is the old count, the old count + 1
+	// computed where this iteration's object is known done with a nil error, or a merge of such
+	// values inside the iteration (several `continue`s / an if-else ending in one latch block).
+	var update func(e ssa.Value, depth int) string
+	update = func(e ssa.Value, depth int) string {
+		if e == ssa.Value(phi) {
+			return ""
+		}
+		if m, isPhi := e.(*ssa.Phi); isPhi && m.Block() != loop.Head && loop.Body[m.Block()] && depth < 6 {
+			for _, me := range m.Edges {
+				if w := update(me, depth+1); w != "" {
+					return w
+				}
+			}
+			return ""
+		}
+		eb, eo, ok := pfAddConst(e)
+		inc, isBin := e.(*ssa.BinOp)
+		if !ok || !isBin || eb != ssa.Value(phi) || eo != 1 {
+			return "the counter is updated by " + p.describe(e) + ", not by +1"
+		}
+		fs := p.FactsAt(inc.Block())
+		if p.c04BoolResult(fs, cv, 0, iter) != yesTri {
+			return "the counter is incremented at " + p.IPos(inc) + " without the object having reported done"
+		}
+		if p.c04ErrOfCall(fs, cv, iter) != yesTri {
+			return "the counter is incremented at " + p.IPos(inc) + " without the error being known nil"
+		}
+		return ""
+	}
 	for i, pred := range loop.Head.Preds {
 		e := phi.Edges[i]
 		if !loop.Body[pred] {
@@ -650,21 +709,8 @@ func (p *Program) c04CounterShape(v ssa.Value, cv *ssa.Call, loop *Loop, phasePa
 			}
 			continue
 		}
-		if e == ssa.Value(phi) {
-			continue
-		}
-		eb, eo, ok := pfAddConst(e)
-		if !ok || eb != ssa.Value(phi) || eo != 1 {
-			return "the counter is updated by " + p.describe(e) + ", not by +1"
-		}
-		inc := e.(*ssa.BinOp)
-		fs := p.FactsAt(inc.Block())
-		iter := pfIterRegion(cv, loop.Head)
-		if p.c04BoolResult(fs, cv, 0, iter) != yesTri {
-			return "the counter is incremented at " + p.IPos(inc) + " without the object having reported done"
-		}
-		if p.c04ErrOfCall(fs, cv, iter) != yesTri {
-			return "the counter is incremented at " + p.IPos(inc) + " without the error being known nil"
+		if w := update(e, 0); w != "" {
+			return w
 		}
 	}
 	return ""
@@ -711,20 +757,41 @@ func (p *Program) c04FlagShape(v ssa.Value, fs []Fact, cv *ssa.Call, loop *Loop)
 		return "not derived from a counter or flag carried by the object loop (" + p.describe(v) + ")"
 	}
 	x, even := c04StripNot(v)
-	iter := pfIterRegion(cv, loop.Head)
+	iter := iterRegionOf(cv, loop)
 	why := ""
+	// behind a bottom-tested loop (`for i := range n`) the flag is read through the exit block's phi
+	// (carriedAtExit): the value the head phi would have taken had the head been entered once more
+	tested := func(flag *ssa.Phi) tri {
+		if t := p.boolFromFacts(fs, flag); t != unknownTri {
+			return t
+		}
+		if rot := rotatedLoop(loop); rot != nil {
+			for _, in := range rot.Exit.Instrs {
+				ph, isPhi := in.(*ssa.Phi)
+				if !isPhi {
+					break
+				}
+				if carriedAtExit(ph, loop) == flag {
+					if t := p.boolFromFacts(fs, ph); t != unknownTri {
+						return t
+					}
+				}
+			}
+		}
+		return unknownTri
+	}
 	for _, flag := range flags {
 		var pol bool
 		switch {
-		case x == ssa.Value(flag):
+		case x == ssa.Value(flag) || carriedAtExit(x, loop) == flag:
 			pol = even
-		case p.boolFromFacts(fs, flag) != unknownTri:
+		case tested(flag) != unknownTri:
 			if c, isC := constBool(x); !isC || c != even {
 				// a value other than the constant true: not decided here
 				why = "the returned value " + p.describe(v) + " is neither the loop's flag nor a constant under a test of it"
 				continue
 			}
-			pol = p.boolFromFacts(fs, flag) == yesTri
+			pol = tested(flag) == yesTri
 		default:
 			if why == "" {
 				why = "the returned value " + p.describe(v) + " is not tied to the flag " + p.describe(flag) + " of the object loop"
@@ -810,6 +877,13 @@ func (p *Program) c04FlagInvariant(flag *ssa.Phi, pol bool, cv *ssa.Call, loop *
 		}
 		if w := sound(flag.Edges[i], pol, p.FactsOnEdge(pred, loop.Head), 0); w != "" {
 			return fmt.Sprintf("back edge from block %d (%s): %s", pred.Index, p.blockPos(pred), w)
+		}
+		// bottom-tested loop: the last iteration hands the same value to the code behind the loop
+		// over the latch's exit edge; it has to be justified under the facts of that edge as well
+		if rot := rotatedLoop(loop); rot != nil && pred == rot.Latch {
+			if w := sound(flag.Edges[i], pol, p.FactsOnEdge(rot.Latch, rot.Exit), 0); w != "" {
+				return fmt.Sprintf("loop exit from block %d (%s): %s", pred.Index, p.blockPos(pred), w)
+			}
 		}
 	}
 	return ""
@@ -1450,7 +1524,7 @@ func c04r7(c *Ctx) {
 						if cv == nil {
 							bad = append(bad, "call is deferred or spawned")
 						} else {
-							for _, t := range pfLoopTailsAfter(cv, loop) {
+							for _, t := range loopTailsAfter(cv, loop) {
 								if p.errOfCall(p.FactsOnEdge(t, loop.Head), cv) != yesTri {
 									bad = append(bad, "the list loop continues after a failed reconciler (a failed slice load would not stop the consumer)")
 								}
